@@ -280,21 +280,20 @@ void UncompressedFile::dropOldData() {
     /* mutex lock */
     std::lock_guard<std::mutex> lock(m_mutex);
 
-    /* check if drop should be done now */
-    if (m_data.empty()) {
-        return;
-    }
-    std::shared_ptr<LogContainer> logContainer = m_data.front();
-    if (logContainer) {
-        std::streampos position = logContainer->uncompressedFileSize + logContainer->filePosition;
-        if ((position > m_tellg) || (position > m_tellp) || (position > m_fileSize)) {
-            /* don't drop yet */
-            return;
+    /* drop every log container that lies completely behind the get position (an object may have spanned several) */
+    while (!m_data.empty()) {
+        std::shared_ptr<LogContainer> logContainer = m_data.front();
+        if (logContainer) {
+            std::streampos position = logContainer->uncompressedFileSize + logContainer->filePosition;
+            if ((position > m_tellg) || (position > m_tellp) || (position > m_fileSize)) {
+                /* don't drop yet */
+                return;
+            }
         }
-    }
 
-    /* drop data */
-    m_data.pop_front();
+        /* drop data */
+        m_data.pop_front();
+    }
 }
 
 uint32_t UncompressedFile::defaultLogContainerSize() const {
